@@ -321,3 +321,39 @@ func VerifC06_MultibyteLetters() {
 	}
 	vReach("parsed")
 }
+
+// An option (with an alias) declared after one command and before the next one
+// reaches both commands and their sub commands: given behind the earlier
+// command it is Called, CalledAs its spelling, and pointer and Value agree.
+func VerifC06_LateOption() {
+	vNativeReset()
+	mode := vInt("mode", 0, 2)
+	um := vInt("um", 0, 2)
+	behind := vInt("behind", 0, 2) // the earlier command, its sub command, the later command
+	byAlias := vBool("byalias")
+	n := vInt("n", 0, 1000000)
+	opt := New()
+	setMode(opt, mode)
+	setUnknown(opt, um)
+	early := opt.NewCommand("early", "")
+	early.NewCommand("esub", "")
+	level := opt.Int("level", 1, opt.Alias("l"))
+	opt.NewCommand("later", "")
+	lead := [][]string{{"early"}, {"early", "esub"}, {"later"}}[behind]
+	tok, spelling := "--level", "level"
+	if byAlias {
+		tok, spelling = "-l", "l"
+	}
+	vPhase("run")
+	remaining, err := opt.Parse(cat(lead, []string{tok, strconv.Itoa(n), "file"}))
+	vObserve("err", err)
+	vObserve("remaining", remaining)
+	vAssert("late/no-error", err == nil)
+	vAssert("late/remaining", eqStrs(remaining, []string{"file"}))
+	vAssert("late/pointer", *level == n)
+	vAssert("late/called", opt.Called("level"))
+	vAssert("late/called-as", opt.CalledAs("level") == spelling)
+	v, ok := opt.Value("level").(int)
+	vAssert("late/value", ok && v == n)
+	vReach("parsed")
+}
